@@ -698,6 +698,53 @@ def c10_13(ctx):
     return out
 
 
+def c10_15(ctx):
+    """INDEPENDENCE of the emitted records: in PSBTIn / PSBTOut / PSBT.serialize, whether the record of a field is written may
+    depend on that field only.  A record that is skipped because *another* field is present (`elif`) is lost on the way out, and
+    what was parsed is not what is serialised"""
+    out = []
+    for spec in ("psbt:PSBTIn.serialize", "psbt:PSBTOut.serialize", "psbt:PSBT.serialize"):
+        mod, fn = rl.get(ctx, spec)
+        cfg = cfg_of(fn)
+
+        def fields(node):
+            return {x.attr for x in ast.walk(node) if isinstance(x, ast.Attribute) and isinstance(x.value, ast.Name) and x.value.id == "self"}
+        stores = []
+        for n in cfg.stmts(("stmt",)):
+            a = n.ast
+            if isinstance(a, ast.AugAssign) and isinstance(a.target, ast.Name):
+                fs = fields(a.value)
+                if fs:
+                    stores.append((n, fs))
+        if len(stores) < 2:
+            out.append(ctx.err(spec, "emission statements not recognised (%d found)" % len(stores), fn, mod))
+            continue
+        ctx.count("call_sites", len(stores))
+        alln = cfg.reach([cfg.entry])
+        hits = []
+        for t in cfg.tests():
+            ft = fields(t.ast)
+            if not ft:
+                continue
+            for lab in (True, False):
+                rr = cfg.reach([cfg.entry], removed={(t.id, lab)})
+                for n, fs in stores:
+                    if n.id in alln and n.id not in rr and not (ft & fs):
+                        hits.append((t, n, fs, ft))
+        seen = set()
+        for t, n, fs, ft in hits:
+            k = (tuple(sorted(fs)), tuple(sorted(ft)))
+            if k in seen:
+                continue
+            seen.add(k)
+            out.append(ctx.bad(spec, "the record of `%s` (line %d) is only written depending on `%s`, a test about %s: when both are present it is dropped, so the bytes "
+                                     "written are not the PSBT that was parsed / built" % ("/".join(sorted(fs)), n.lineno, ast.unparse(t.ast), sorted(ft)), n.ast, mod,
+                               key="emit-independent:%s<-%s" % ("+".join(sorted(fs)), "+".join(sorted(ft)))))
+        if not hits:
+            out.append(ctx.ok(spec, "each of the %d emitted records depends on its own field only" % len(stores), fn, mod, key="emit-independent"))
+    return out
+
+
 def c10_14(ctx):
     """OWNERSHIP: extraction fills scriptSigs / witnesses into a *copy* of the PSBT's unsigned transaction.
     (a) PSBT.final_tx mutates the inputs of `self.tx_obj.clone()`, never of self.tx_obj itself;
@@ -773,5 +820,6 @@ OBLIGATIONS = [
     ("C10.9", "GUARD", c10_9),
     ("C10.13", "INDEPENDENCE", c10_13),
     ("C10.14", "OWNERSHIP", c10_14),
+    ("C10.15", "INDEPENDENCE emit", c10_15),
 ]
 FLOORS = {"C10.2": 14, "C10.3": 20, "C10.4": 8, "C10.5": 20, "C10.6": 6, "C10.8": 2}
